@@ -252,6 +252,8 @@ def stop_key(enc, sysm, tid, pc):
       return ('wr', f'{dst[1]}.{enc.canon(("g", dst[1], dst[2]))[2]}', ins['line'])
     if isinstance(e, tuple) and e[0] == 'g':
       return ('rd', f'{e[1]}.{enc.canon(e)[2]}', ins['line'])
+  if op == 'retadd':
+    return ('rd', f"{ins['obj']}.{ins['field']}", ins['line'])     # self._returned.extend(..): attribute load, then in-place extend
   if op == 'join':
     return ('join', '', ins['line'])
   if op in ('halt', 'br', 'jmp', 'nop', 'start'):
